@@ -20,6 +20,7 @@ package flood
 
 import (
 	"fmt"
+	"os"
 	"runtime"
 	"sync"
 	"sync/atomic"
@@ -261,11 +262,18 @@ func c11cCase(r *verifkit.R, phase string, ci int, rng *verifkit.Rand, rounds in
 }
 
 func TestVerif_C11Conc(t *testing.T) {
-	r := verifkit.Start(t, "C11", "conc")
+	part := "conc"
+	if os.Getenv("C11C_SCALE") == "race" {
+		part = "concrace"
+	}
+	r := verifkit.Start(t, "C11", part)
 	r.Rule("one case = one real Flooder+routing.Manager with 11 neighbours and a block of rounds; per round 2-8 goroutines (one per upstream neighbour, as the per-connection readers of an agent) are released by a spin barrier and hand the same (origin, sequence) advertisement or withdrawal to the flooder, each as its neighbour would have forwarded it; " +
 		"non-trivial = in at least one round of the case two or more handler calls were observed in flight at once; distinct by case stream")
-	cases := r.N(12, 40)
-	per := r.N(1000, 1500)
+	cases := r.N(12, 60)
+	per := r.N(1000, 5000)
+	if os.Getenv("C11C_SCALE") == "race" { // the race-detector part: spinning goroutines are slow under -race
+		cases, per = 20, 500
+	}
 	r.Set("gomaxprocs", runtime.GOMAXPROCS(0))
 	r.Cases("conc", cases, func(ci int, rng *verifkit.Rand) { c11cCase(r, "conc", ci, rng, per) })
 	r.Require("rounds", int64(cases*per*9/10))
